@@ -1057,6 +1057,10 @@ pub struct World {
     pub yielded: std::collections::BTreeSet<u32>,
     /// size of the simulated rayon pool (decided like the core count, or set by the program)
     pub rayon_threads: Option<u32>,
+    /// the machine's core count, once it has been asked for
+    pub cores: Option<u32>,
+    /// working directory of the simulated process (starts as the crate directory)
+    pub cwd: PathBuf,
     /// process id of this simulated execution
     pub pid: u32,
     pub epoch: u32,
@@ -1116,6 +1120,7 @@ pub fn with<R>(f: impl FnOnce(&mut World) -> R) -> R {
 impl World {
     pub fn new(image: Arc<FsImage>, mode: Mode, collect: bool, verbose: bool) -> World {
         World {
+            cwd: image.crate_dir.clone(),
             image,
             mode,
             trace: vec![],
@@ -1160,6 +1165,7 @@ impl World {
             fd_exhausted: false,
             yielded: Default::default(),
             rayon_threads: None,
+            cores: None,
             pid: 4711,
             epoch: 0,
             intruder: None,
@@ -1211,6 +1217,15 @@ impl World {
         self.open_fds += 1;
         self.stats.max_open_fds = self.stats.max_open_fds.max(self.open_fds);
         Ok(())
+    }
+
+    /// a path as the simulated process spells it, made absolute against its working directory
+    pub fn absolute(&self, p: &Path) -> PathBuf {
+        if p.is_absolute() {
+            p.to_path_buf()
+        } else {
+            self.cwd.join(p)
+        }
     }
 
     /// Start this run on what earlier runs of the session left behind.
@@ -1519,6 +1534,17 @@ impl World {
     }
 
     pub fn decide_cores(&mut self) -> u32 {
+        // a property of the machine: the same answer for the whole execution
+        if let Some(n) = self.cores {
+            self.stats.cores_asked += 1;
+            return n;
+        }
+        let n = self.decide_cores_once();
+        self.cores = Some(n);
+        n
+    }
+
+    fn decide_cores_once(&mut self) -> u32 {
         let n = match &mut self.mode {
             Mode::Random { aux, profile, .. } => {
                 if profile.cover_iter.is_some() {
